@@ -1,6 +1,6 @@
 (* C09 correspondence: the Monte-Carlo loop of Model/MC.v (float instance) against recorded runs of
    gaddlemaps._backend._minimize_molecules. *)
-From GM Require Import Corr.CorrBase Model.Aux Model.MC.
+From GM Require Import Corr.CorrBase Corr.CheckC07 Model.Aux Model.Transform Model.MC.
 Open Scope float_scope.
 
 (* ---------------------------------------------------------------- (i) bookkeeping, bit-exact
@@ -99,3 +99,10 @@ Definition chk_rotc (pos : list (V3 float)) (axis : V3 float) (theta c s : float
   | Err _, None => AGREE
   | _, _ => ERRMISMATCH
   end.
+
+(* the single-atom move proposals: the search's `move_mol_atom(held, bonds, sigma_scale=...)` with the atom and the
+   displacement it drew (observed through the module-level `find_atom_random_displ`) against C07's model of
+   move_mol_atom on ANY bond graph (trees and graphs with rings), with C07's comparison and conditioning rule
+   (code 2 = ill-conditioned pull, not compared).  obs = Err EDiv0: the implementation produced a non-finite array. *)
+Definition chk_atom (held : list (V3 float)) (tb : bond_table float) (k : nat) (d : V3 float)
+    (obs : res (list (V3 float))) : nat := chk_move held tb k d obs.
